@@ -273,6 +273,13 @@ func (b *Batch) flushStagedAndUpdateFile() error {
 
 // 刷新缓存
 func (b *Batch) flushStaged() error {
+	// 活跃文件剩余空间不足以容纳暂存数据及完成标识记录时, 先持久化并切换新的活跃文件
+	if b.db.activeFile.Size()+b.cachedDataSize+maxFinRecord > b.db.options.DataFileSize {
+		if err := b.db.sync(); err != nil {
+			return err
+		}
+	}
+
 	// 顺序遍历暂存数据依次追加磁盘
 	for _, record := range b.staged {
 		record.BatchID = uint64(b.batchID)
@@ -297,6 +304,8 @@ func (b *Batch) flushStaged() error {
 
 	// 追加操作全部完成后, 更新索引
 	for i, record := range b.staged {
+		// 维护总数据量, 与 Put/Delete 及重启时的统计方式保持一致
+		b.db.totalSize += int64(dataPos[i].Size)
 		var pos *datafile.DataPos
 		if record.Type == datafile.LogRecordDeleted {
 			pos = b.db.index.Delete(record.Key)
